@@ -119,6 +119,23 @@ def pair_agreement(ctx, rule="R13.2"):
     f1 = {ast.unparse(n.func) for n in ast.walk(g2c) if isinstance(n, ast.Call)} & {"np.sin", "np.arcsin"}
     f2 = {ast.unparse(n.func) for n in ast.walk(c2g) if isinstance(n, ast.Call)} & {"np.sin", "np.arcsin"}
     ok = d1 == d2 == ["diameter = 2 * radius"] and f1 == {"np.sin"} and f2 == {"np.arcsin"}
+    # the two conversions composed, as formulas (E11 DIFF): chord(great_circle(c)) = c and great_circle(chord(d)) = d inside [0, 2 r] / [0, pi r]
+    from .. import diffalg as DA
+    from ..small import UnrollError, return_cases
+
+    try:
+        t_g2c = [t for c_, t in return_cases(g2c, opaque=("dist",))]
+        t_c2g = [t for c_, t in return_cases(c2g, opaque=("dist",))]
+        DA.set_domain(0, None)
+        a_ = DA.from_ast(ast.parse(t_g2c[0], mode="eval").body, {"dist"}, 1, subst={"radius": DA.sym("l")})
+        b_ = DA.from_ast(ast.parse(t_c2g[0], mode="eval").body, {"dist"}, 1, subst={"radius": DA.sym("l")})
+        comp1 = DA.canon(DA.substitute(a_, "x", b_))
+        comp2 = DA.canon(DA.substitute(b_, "x", a_))
+        ok_comp = len(t_g2c) == 1 and len(t_c2g) == 1 and DA.same(comp1, DA.canon(DA.sym("x"))) and DA.same(comp2, DA.canon(DA.sym("x")))
+        detail = "%s ; %s" % (DA.vtext(comp1), DA.vtext(comp2))
+    except (UnrollError, DA.DiffError, IndexError) as e:
+        ok_comp, detail = False, "not in the formula algebra: %s" % e
+    ctx.check(ok_comp, rule, GEO + "::great_circle_to_chordal/chordal_to_great_circle", "the two conversions are inverse to each other as formulas: %s" % detail, "chord-inverse")
     r1 = [s.value for s in g2c.body if isinstance(s, ast.Return)]
     r2 = [s.value for s in c2g.body if isinstance(s, ast.Return)]
     ok = ok and len(r1) == 1 and len(r2) == 1 and signed_factors(r1[0])[1][0] == "diameter" and signed_factors(r2[0])[1][0] == "diameter"
